@@ -182,8 +182,8 @@ func (r relationSlice) ToRelationIDsForUnsafe(world *World, out []relationID) []
 // checkRelationsAdded panics if a relation target is given for a component that is not among the added components.
 // Such a target would be taken for the target of another, unspecified relation component
 // by the checks for fully specified relation targets.
-func checkRelationsAdded(ids []ID, relations []relationID) {
-	if len(ids) == 0 {
+func checkRelationsAdded(ids []ID, relations []relationID, required bool) {
+	if len(ids) == 0 && !required {
 		// Reported by the check for at least one added component.
 		return
 	}
@@ -218,6 +218,9 @@ func (r relationEntities) ToRelation(world *World, id ID, out []relationID) []re
 	out = out[:0]
 	if len(r) == 0 {
 		return out
+	}
+	if len(r) > 1 {
+		panic(fmt.Sprintf("more than one relation target given for the single relation component with ID %d", id.id))
 	}
 	for _, rel := range r {
 		world.storage.checkRelationTarget(rel)
